@@ -675,7 +675,10 @@ impl<'de, R: Read<'de>> Parser<R> {
                     let name = self.parse_symbol()?;
                     self.symbol_token(name)
                 } else {
-                    return Err(self.peek_error(ErrorCode::ExpectedSomeValue));
+                    // Consume the offending byte, so that a caller who keeps iterating after an
+                    // error makes progress instead of getting the same error forever.
+                    self.eat_char();
+                    return Err(self.error(ErrorCode::ExpectedSomeValue));
                 }
             }
         };
